@@ -282,3 +282,21 @@ CLAIMED["C19"] = {
     "note": "Trusted: Lean kernel; generators; the independent exposition reader. serde_json and tokio are exercised, not modelled.",
     "technique": "Lean 4 theorems over a model of the formatter (structural induction for escaping, simp over the metric table) + byte-exact end-to-end correspondence through the real exporter process + independent response oracle",
 }
+
+CLAIMED["C20"] = {
+    "text": "Proof on the loop's model, process-level correspondence for the tie. Lean model of the exporter's accept / request loop over "
+            "abstract results of read() (data, end of stream, error) and of the observation socket (usable or not). Theorems for every "
+            "sequence of read results: the loop is structurally recursive over them (no iteration without consuming a read result: no "
+            "spin); a connection whose client goes away (any end of stream or error) always finishes - the exporter is left waiting only "
+            "by a client that is still connected and has sent nothing final; however a request is cut into reads, the connection gets "
+            "the verdict of the whole stream (chunking_does_not_matter); a well-formed GET is answered with the data, or with the 500 "
+            "status when the observation socket is unusable; after any number of such connections a later well-formed request gets its "
+            "200 and nothing in the model can terminate the loop. Tie: the real exporter process is run against scripted clients "
+            "(partial requests, resets, oversized and non-GET requests, split writes) and observation-socket behaviours; every "
+            "connection's outcome is compared with the model and an independent oracle watches exit status, CPU use while idle and the "
+            "answer to a final request. Three genuine defects found and repaired by fix: commits (busy loop for ever after a client "
+            "closed early; busy loop after an over-long request; exit on a connection reset or a failed write).",
+    "note": "Trusted: Lean kernel; tokio / the kernel's socket semantics as abstracted by read results; timing thresholds of the oracle. "
+            "Buffer size, end-of-headers marker, verb prefix and the binary's entry point are re-extracted from the source every run.",
+    "technique": "Lean 4 theorems (structural induction over read results, list lemmas) over a model of the request loop + translated constants + process-level differential correspondence and liveness oracle",
+}
